@@ -25,7 +25,7 @@ func (g *h06Gen) next(base int) int {
 	return r
 }
 
-const h06NumLeaves = 12
+const h06NumLeaves = 15
 
 func (g *h06Gen) gen(depth int) *h06Node {
 	k := g.next(6)
@@ -46,7 +46,7 @@ func (g *h06Gen) gen(depth int) *h06Node {
 }
 
 var h06LeafText = [h06NumLeaves]string{
-	`a:x`, `b:y`, `.name:N`, `/s:1`, `.unit:U`, `.unit:V`, `*`, `a:(x OR z)`, `"a":"x"`, `.unit:(U OR V)`, `a:""`, `.fullname:"N/s=1"`,
+	`a:x`, `b:y`, `.name:N`, `/s:1`, `.unit:U`, `.unit:V`, `*`, `a:(x OR z)`, `"a":"x"`, `.unit:(U OR V)`, `a:""`, `.fullname:"N/s=1"`, `c:(/x/ OR /q/)`, `c:(/q/ OR /r/)`, `c:/^x$/`,
 }
 
 func (n *h06Node) render(sb *strings.Builder) {
@@ -130,6 +130,10 @@ func (n *h06Node) ref(st *h06State, i int) bool {
 			return st.a == 0
 		case 11:
 			return vndAnd(st.nm == 'N', st.s == '1')
+		case 12, 14: // regexp terms on the key c, whose value is the concrete "x"
+			return true
+		case 13:
+			return false
 		}
 		panic("bad leaf")
 	case 1:
@@ -157,6 +161,7 @@ func h06Build(st *h06State) *benchfmt.Result {
 	if st.b != 0 {
 		res.SetConfig("b", string([]byte{st.b}))
 	}
+	res.SetConfig("c", "x") // concrete: regexp leaves are matched natively
 	for i := range st.unit {
 		v := benchfmt.Value{Value: float64(i), Unit: string([]byte{st.unit[i]})}
 		if st.orig[i] != 0 {
